@@ -1,6 +1,7 @@
 #ifndef STUB_PAM_MACROS_H
 #define STUB_PAM_MACROS_H
 #include <stdlib.h>
+#include <string.h>
 /* as in Linux-PAM's _pam_macros.h */
 #define _pam_overwrite(x)        \
 do {                             \
@@ -9,6 +10,20 @@ do {                             \
           while (*__xx__)        \
                *__xx__++ = '\0'; \
 } while (0)
+#define _pam_overwrite_n(x,n)   \
+do {                             \
+     register char *__xx__;      \
+     register unsigned int __i__ = 0;    \
+     if ((__xx__=(x)))           \
+        for (;__i__<n; __i__++) \
+            __xx__[__i__] = 0; \
+} while (0)
+#define _pam_delete(xx)         \
+{                               \
+    _pam_overwrite(xx);         \
+    _pam_drop(xx);              \
+}
+#define x_strdup(s)  ( (s) ? strdup(s):NULL )
 #define _pam_drop(X) \
 do {                 \
     if (X) {         \
